@@ -441,3 +441,9 @@ mod test {
         }
     }
 }
+
+#[cfg(kani)]
+#[allow(warnings, clippy::all, clippy::pedantic)]
+pub(crate) mod verif_kani {
+    include!(concat!(env!("IPA_VERIF_DIR"), "/harness/accumulator.rs"));
+}
